@@ -9,3 +9,15 @@ package packagemanifestvalidation
 // assumption the guard in the code relies on (the schema validation is vendored Kubernetes code, not re-verified here).
 //@ func package-operator.run/internal/packages/internal/packagemanifestvalidation.ValidatePackageManifest
 //@   requires obj != nil
+
+//@ props C16
+// Admission of a Package's configuration: with a config schema in the manifest, a nil-error return reports exactly the
+// violations a schema validation of the (pruned, defaulted) configuration found in this call - there is no way round
+// the validation. admittedErrs() hands the count to the deployer, which must not roll out unless it is 0.
+//@ func package-operator.run/internal/packages/internal/packagemanifestvalidation.AdmitPackageConfiguration
+//@   at validatePackageConfigurationBySchema#1 ghost schemaChecked() := true
+//@   after validatePackageConfigurationBySchema#1 ghost schemaErrs() := len(result0)
+//@   ghost admittedErrs() := if result1 == nil then len(result0) else 0 - 1
+//@   ensures constraintsFailed() == old(constraintsFailed())
+//@   ensures [C16] admittedErrs() == (if result1 == nil then len(result0) else 0 - 1)
+//@   ensures [C16] result1 == nil && old(manifest.Spec.Config.OpenAPIV3Schema != nil) && !old(schemaChecked()) ==> schemaChecked() && len(result0) == schemaErrs()
